@@ -143,6 +143,8 @@ impl Check for C15 {
         let f = &c.f;
         ex.workload_fp = f.fingerprint();
         ex.nontrivial = f.m() >= 1;
+        ex.probe_if(f.n() >= 64 || f.m() >= 64 || f.s.len() >= 64 || f.t.len() >= 64, "size_64_or_more");
+        ex.probe_if(f.n() >= 256 || f.m() >= 256 || f.s.len() >= 256 || f.t.len() >= 256, "size_256_or_more");
         let budget = launch_budget(f);
         // workload probes
         let succ = op_successors(f);
